@@ -1,7 +1,7 @@
 PROPS["C17"] = dict(
     harnesses=[dict(name="C17", procs_quick=4, procs_thorough=16, timeout=3000,
                     env={"ASAN_OPTIONS": "detect_leaks=0:abort_on_error=0:allocator_may_return_null=1"})],
-    gens=[],
+    gens=["gen_intersect"],
     rule=("NearestNeighbor (dist_t = long long, exact): point sets of size 0…2000 from five metrics — L1 on a 9×9 grid (duplicates, ties), L1 on a 1000² grid, "
           "collinear points (triangle equality everywhere), Chebyshev on a 40² grid, GeodesicExact distance in mm rounded up (lat/lon on a ¼° lattice incl. poles and a "
           "dense cluster) — bucket sizes 0…10, query = a set member or a random point, k ∈ {−1, 0, 1, 2, 3, 5, 9, n, n+2}, maxdist ∈ {max, 0, 5 %…100 % of the diameter}, "
